@@ -1890,7 +1890,7 @@ def _entry_guard_ok(c, pol):
            "for the function at hand.  A driver generates the functions one after the other with the same GeneratorState, through generate_statement, and "
            "cannot reach these private fields: generate_statement itself forgets them - before it emits anything, unconditionally or under the sole "
            "condition that no instruction of the current function exists yet - or `if (x)` at the head of a function branches on the flags left by the "
-           "last statement of the previous one")
+           "last statement of the previous one.  Nothing else is assigned to these fields there: no belief holds at every place the body is expanded")
 def t_entry_flags(facts, res, tier):
     from scopes import scoped
     fn = next((f for f in facts.fns if f["name"] == "generate_statement" and not f.get("test")), None)
@@ -1911,9 +1911,13 @@ def t_entry_flags(facts, res, tier):
         if not l.startswith("self.") or l[5:] not in ENTRY_STATE:
             continue
         field = l[5:]
-        if expr_text(node["r"]).replace(" ", "") != ENTRY_STATE[field]:
-            continue
         if top_of.get(id(node), len(stmts)) >= first_emit:
+            continue
+        if expr_text(node["r"]).replace(" ", "") != ENTRY_STATE[field]:
+            # nothing has been emitted for this function: whatever the flags reflect was left by other code (the previous function; for an
+            # inline body, whatever each call site happened to end with)
+            res.fail("T-ENTRY-FLAGS:%s:other-value" % field, facts.where(fn, node), "generate_statement sets `self.%s = %s` before anything is emitted for the current function: at that point nothing can be "
+                     "known of the processor (a body generated once, an inline function, is expanded after call sites that leave different flags)" % (field, expr_text(node["r"])))
             continue
         conds = [(d[1], d[2]) for d in doms if d[0] == "cond"]
         arms = [d for d in doms if d[0] == "arm"]
@@ -4626,3 +4630,315 @@ def t_signext_all_routes(facts, res, tier):
                 res.fail("T-SIGNEXT-ALL-ROUTES:generate_expr", facts.where(fn, x), "generate_expr answers `%s` on a route that has no `high_byte && .. signed` case with generate_sign_extend: the high byte of a signed char element reached this way is $00" % t[:40])
     if n == 0:
         raise AnchorMissing("generate_expr: no indexed answer in the match on the subscript")
+
+
+def _key_text(e):
+    t = expr_text(e).replace(" ", "")
+    while True:
+        m = re.fullmatch(r"(.*)\.(clone|to_string|into|to_owned)\(\)", t)
+        if not m:
+            break
+        t = m.group(1)
+    return t.lstrip("&")
+
+
+def _line_of(n):
+    try:
+        return int(str(n.get("loc", "0")).split(":")[0])
+    except ValueError:
+        return 0
+
+
+@rule("T-VAR-KEY-FRESH", floor=5,
+      text="the table of variables is keyed by generated names (`<function>_<depth>_<name>`, `<function>_<parameter>`, `cctmp<n>`), and "
+           "`HashMap::insert` replaces silently: every `self.variables.insert(K, ..)` of the declaration functions of compile.rs is preceded, in "
+           "the same function, by a test of the WHOLE table for that key - `if self.variables.get(&K).is_some() { return Err(..) }` (or "
+           "`contains_key`; itself under no other `if`), a renaming loop `while self.variables.get(&K).is_some() { K = .. }`, an enclosing `if self.variables.get(&K).is_none()`, "
+           "or `if let Some(v) = self.variables.get(&K)` refusing a global - or K is minted from a counter that is stepped at once "
+           "(`format!(\"cctmp{}\", self.literal_counter)`), or comes out of the sorted list of literals of one expression.  A test of the innermost "
+           "scope only is not enough: two sibling blocks at the same depth make the same name, and the second declaration takes the bytes of the "
+           "first (`{ const char *s = \"first\"; .. } { const char *s = \"other\"; .. }`)")
+def t_var_key_fresh(facts, res, tier):
+    def _under_if(x, par):
+        # the test itself sits under no other condition (a test made for globals only is a test of part of the declarations)
+        cur = x
+        while id(cur) in par and par[id(cur)][0] is not None:
+            p_, slot, _ = par[id(cur)]
+            if p_.get("k") == "if" and slot in ("then", "else"):
+                return True
+            cur = p_
+        return False
+
+    n = 0
+    for fn in facts.fns:
+        if not fn["file"].endswith("/compile.rs") or fn.get("test"):
+            continue
+        nodes = [x for x in walk(fn["body"]) if isinstance(x, dict)]
+        inserts = [x for x in nodes if x.get("k") == "mcall" and x["method"] == "insert" and expr_text(x["recv"]).replace(" ", "") == "self.variables" and x.get("args")]
+        if not inserts:
+            continue
+        seen = {}
+        par = _parents(fn["body"])
+        for ins in inserts:
+            K = _key_text(ins["args"][0])
+            n += 1
+            seen[K] = seen.get(K, 0) + 1
+            key = "T-VAR-KEY-FRESH:%s:%s" % (fn["name"], K) + ("#%d" % seen[K] if seen[K] > 1 else "")
+            tests = ("self.variables.get(%s).is_some()" % K, "self.variables.contains_key(%s)" % K)
+            how = None
+            line = _line_of(ins)
+            # minted from a counter stepped in the same block (looked at first: such a `let` shadows any outer variable of that name)
+            for b in nodes:
+                if b.get("k") != "block" or not any(y is ins for y in walk(b)):
+                    continue
+                st = b.get("stmts", [])
+                for i, s in enumerate(st):
+                    if s.get("k") == "let" and pat_text(s["pat"]).replace(" ", "").replace("mut", "") == K and s.get("init") is not None and _line_of(s) <= line:
+                        it = expr_text(s["init"]).replace(" ", "")
+                        m = re.search(r"self\.(\w*counter)", it)
+                        if m and it.startswith("format!") and any(
+                                e.get("k") == "assignop" and expr_text(e["l"]).replace(" ", "") == "self." + m.group(1) for e in st[i + 1:i + 3]):
+                            how = "minted from self.%s, stepped at once" % m.group(1)
+            for x in ([] if how else nodes):
+                if _line_of(x) > line:
+                    continue
+                if x.get("k") == "if" and x["cond"].get("k") != "letcond" and expr_text(x["cond"]).replace(" ", "").replace("&", "") in tests and _diverges_err(x["then"]) and not _under_if(x, par):
+                    how = "refused when the table has the key"
+                elif x.get("k") == "while" and expr_text(x["cond"]).replace(" ", "").replace("&", "") in tests and any(
+                        y.get("k") == "assign" and expr_text(y["l"]).replace(" ", "") == K for y in walk(x["body"])):
+                    how = "renamed until the table has no such key"
+                elif x.get("k") == "if" and x["cond"].get("k") == "letcond" and expr_text(x["cond"]["e"]).replace(" ", "").replace("&", "") == "self.variables.get(%s)" % K \
+                        and pat_text(x["cond"]["pat"]).replace(" ", "").startswith("Some(") and any(_diverges_err(y["then"]) for y in walk(x["then"]) if y.get("k") == "if"):
+                    how = "refused when the key is that of a global (a parameter may be declared again by the definition that follows a prototype)"
+                elif x.get("k") == "if" and expr_text(x["cond"]).replace(" ", "").replace("&", "") == "self.variables.get(%s).is_none()" % K and any(y is ins for y in walk(x["then"])):
+                    how = "inserted only when the table has no such key"
+                if how:
+                    break
+            if not how:
+                if re.fullmatch(r"\w+\.0", K):
+                    # the key of a sorted list of (name, literal) pairs: the names were minted by the expression parser
+                    lst = K.split(".")[0]
+                    for x in nodes:
+                        if x.get("k") == "for" and pat_text(x["pat"]).replace(" ", "") == lst and any(y is ins for y in walk(x["body"])):
+                            how = "one of the literals collected while parsing one expression (names minted there)"
+            res.inst(key, True, {"key": K, "how": how, "where": facts.where(fn, ins)})
+            if not how:
+                res.fail(key, facts.where(fn, ins),
+                         "%s inserts `%s` into the table of variables without having looked for that key in the whole table first: generated names repeat "
+                         "(sibling blocks at the same depth, a global spelt like a generated name), and the insert silently replaces the earlier variable" % (fn["name"], K))
+    if n == 0:
+        raise AnchorMissing("compile.rs: no `self.variables.insert(..)` found")
+
+
+@rule("T-PRATT-ERR-AT-OP", floor=3,
+      text="an error raised by a Pratt callback that receives the operator (`|lhs, op, rhs|` of map_infix, `|op, rhs|` of map_prefix, `|lhs, op|` of "
+           "map_postfix in compile.rs) is located at that operator: the position handed to syntax_error / compiler_error is `op.as_span()..` or a "
+           "local of the callback computed from `op`; a helper closure defined OUTSIDE the callback and called in it raises no error with a "
+           "position of its own (it cannot know the operator).  The expression may span many lines; the first token of the expression is not "
+           "where `1 << 40` overflows")
+def t_pratt_err_at_op(facts, res, tier):
+    n = 0
+    for fn in facts.fns:
+        if not fn["file"].endswith("/compile.rs") or fn.get("test"):
+            continue
+        calls = [x for x in walk(fn["body"]) if isinstance(x, dict) and x.get("k") == "mcall" and x["method"] in ("map_infix", "map_prefix", "map_postfix")
+                 and x.get("args") and x["args"][0].get("k") == "closure"]
+        if not calls:
+            continue
+        # closures bound to a name at function level
+        named = {}
+        for x in walk(fn["body"]):
+            if isinstance(x, dict) and x.get("k") == "let" and x.get("init") is not None and x["init"].get("k") == "closure" and x.get("pat", {}).get("k") == "ident":
+                named.setdefault(x["pat"]["name"], []).append(x)
+        for c in calls:
+            clo = c["args"][0]
+            params = [pat_text(p).replace(" ", "") if isinstance(p, dict) else str(p) for p in clo.get("params", [])]
+            if "op" not in params:
+                raise AnchorMissing("%s: the %s callback has no parameter named `op` (%s)" % (fn["name"], c["method"], params))
+            inner = [x for x in walk(clo["body"]) if isinstance(x, dict)]
+            inner_ids = {id(x) for x in inner}
+            lets = {x["pat"]["name"]: x["init"] for x in inner if x.get("k") == "let" and x.get("init") is not None and x.get("pat", {}).get("k") == "ident"}
+            for y in inner:
+                if y.get("k") == "mcall" and y["method"] in ("syntax_error", "compiler_error") and len(y.get("args", [])) == 2:
+                    loc = y["args"][1]
+                    t = expr_text(loc).replace(" ", "")
+                    ok = t.startswith("op.as_span()") or (loc.get("k") == "path" and len(loc["segs"]) == 1 and loc["segs"][0] in lets
+                                                           and "op.as_span()" in expr_text(lets[loc["segs"][0]]).replace(" ", ""))
+                    n += 1
+                    key = "T-PRATT-ERR-AT-OP:%s:%s:%s" % (fn["name"], c["method"], expr_text(y["args"][0]).strip('&"')[:40])
+                    res.inst(key, True, {"position": t, "where": facts.where(fn, y)})
+                    if not ok:
+                        res.fail(key, facts.where(fn, y), "%s: the %s callback raises this error at `%s`, which is not computed from the operator it received" % (fn["name"], c["method"], t))
+                if y.get("k") == "call" and y["func"].get("k") == "path" and len(y["func"]["segs"]) == 1 and y["func"]["segs"][0] in named:
+                    for d in named[y["func"]["segs"][0]]:
+                        if id(d) in inner_ids:
+                            continue
+                        dparams = [pat_text(p).replace(" ", "").split(":")[0] for p in d["init"].get("params", []) if isinstance(p, dict)]
+                        for z in walk(d["init"]["body"]):
+                            if isinstance(z, dict) and z.get("k") == "mcall" and z["method"] in ("syntax_error", "compiler_error") and len(z.get("args", [])) == 2:
+                                lt = expr_text(z["args"][1]).replace(" ", "")
+                                key = "T-PRATT-ERR-AT-OP:%s:%s:helper:%s" % (fn["name"], c["method"], y["func"]["segs"][0])
+                                n += 1
+                                res.inst(key, True, {"position": lt, "helper_parameters": dparams, "where": facts.where(fn, z)})
+                                if not any(re.search(r"\b%s\b" % re.escape(p), lt) for p in dparams):
+                                    res.fail(key, facts.where(fn, z), "%s: the %s callback raises an error through `%s`, a closure defined outside it, at the position `%s` that closure "
+                                             "captured: not the operator the callback received" % (fn["name"], c["method"], y["func"]["segs"][0], lt))
+    if n == 0:
+        raise AnchorMissing("compile.rs: no error raised in a Pratt callback found")
+
+
+NZ_BRANCHES = {"BNE", "BEQ", "BMI", "BPL"}
+NZ_SETTERS = {"LDA", "LDX", "LDY", "AND", "ORA", "EOR", "ADC", "SBC", "CMP", "CPX", "CPY", "INC", "DEC", "INX", "INY", "DEX", "DEY", "ASL", "LSR", "ROL", "ROR",
+              "BIT", "TAX", "TAY", "TXA", "TYA", "PLA"}
+BRANCH_HELPERS = {"generate_branch_instruction": "emits the branch(es) of a comparison; its callers emit the compare instruction and call it next (T-BRANCH checks the table it implements)",
+                  "generate_branch_instruction_alt": "the same, for the alternative (operands swapped) form"}
+
+
+def _asm_mnemonics(n):
+    """mnemonics a `self.asm(M, ..)` call may emit (M may be `if c { A } else { B }`); None if n is not such a call"""
+    n = _unwrap_try(n)
+    if not (isinstance(n, dict) and n.get("k") == "mcall" and n["method"] == "asm" and expr_text(n["recv"]) == "self" and n.get("args")):
+        return None
+    return {x["segs"][-1] for x in walk(n["args"][0]) if isinstance(x, dict) and x.get("k") == "path" and len(x["segs"]) == 1 and x["segs"][0].isupper()}
+
+
+@rule("T-BRANCH-FLAGS-KNOWN", floor=6,
+      text="where a generator function emits a branch on the N/Z flags (BNE, BEQ, BMI, BPL) itself, the flags are those of the value it tests: going "
+           "back from the branch through the statements of the enclosing blocks - past statements that emit nothing (assignments to the generator's "
+           "fields, lets, refusals) and past other branches - the first thing found is an instruction this function emitted that sets N and Z "
+           "(`self.asm(LDA|CMP|ORA|INC|..)`, or a match / if every surviving alternative of which ends with one), or the branch stands in the "
+           "`then` part of `if flags_ok(&self.flags, <value>)`.  A value handed back by generate_expr / generate_assign guarantees nothing of the "
+           "flags (a call result arrives in A with whatever the callee did last): `if (f() & 0x80)` lowered to `JSR f; BMI` tests the callee's last "
+           "instruction.  The two helpers that emit the branches of a comparison right after their caller's compare are the stated boundary")
+def t_branch_flags_known(facts, res, tier):
+    n = 0
+    for fn in genmodel.gen_fns(facts):
+        if fn["name"] in BRANCH_HELPERS:
+            res.note("T-BRANCH-FLAGS-KNOWN: %s is not examined: %s" % (fn["name"], BRANCH_HELPERS[fn["name"]]))
+            continue
+        sites = [x for x in walk(fn["body"]) if isinstance(x, dict) and (_asm_mnemonics(x) or set()) & NZ_BRANCHES and x.get("k") == "mcall"]
+        if not sites:
+            continue
+        par = _parents(fn["body"])
+
+        def branch_only(s):
+            s = _unwrap_try(s)
+            m = _asm_mnemonics(s)
+            if m is not None:
+                return bool(m) and m <= (NZ_BRANCHES | {"BCC", "BCS", "BVC", "BVS"})
+            if isinstance(s, dict) and s.get("k") == "if":
+                return branch_only(s["then"]) and (s.get("else") is None or branch_only(s["else"]))
+            if isinstance(s, dict) and s.get("k") == "block":
+                return bool(s.get("stmts")) and all(branch_only(x) or neutral(x) for x in s["stmts"])
+            return False
+
+        def neutral(s):
+            s = _unwrap_try(s)
+            if not isinstance(s, dict):
+                return True
+            k = s.get("k")
+            if k == "let":
+                return not any(isinstance(x, dict) and x.get("k") == "mcall" and expr_text(x["recv"]) == "self" for x in walk(s.get("init") or {}))
+            if k in ("assign", "assignop"):
+                return expr_text(s["l"]).replace(" ", "").startswith("self.") and not any(
+                    isinstance(x, dict) and x.get("k") == "mcall" and expr_text(x["recv"]) == "self" for x in walk(s["r"]))
+            if k == "if" and s.get("else") is None and _diverges_err(s["then"]):
+                return True
+            return branch_only(s)
+
+        def sets_flags(s):
+            s = _unwrap_try(s)
+            if not isinstance(s, dict):
+                return False
+            m = _asm_mnemonics(s)
+            if m is not None:
+                return bool(m) and m <= NZ_SETTERS
+            k = s.get("k")
+            if k == "block":
+                for x in reversed(s.get("stmts", [])):
+                    if neutral(x):
+                        continue
+                    return sets_flags(x)
+                return False
+            if k == "match":
+                alive = [a["body"] for a in s["arms"] if not _diverges_err(a["body"]) and not _ends_in_return(a["body"])]
+                return bool(alive) and all(sets_flags(b) for b in alive)
+            if k == "if":
+                alts = [s["then"]] + ([s["else"]] if s.get("else") is not None else [None])
+                alive = [b for b in alts if b is None or not (_diverges_err(b) or _ends_in_return(b))]
+                return bool(alive) and all(b is not None and sets_flags(b) for b in alive)
+            return False
+
+        def _ends_in_return(b):
+            b = _unwrap_try(b)
+            if isinstance(b, dict) and b.get("k") == "block" and b.get("stmts"):
+                return _ends_in_return(b["stmts"][-1])
+            return isinstance(b, dict) and b.get("k") == "return"
+
+        seen = {}
+        for site in sites:
+            cur = site
+            why = None
+            found = None
+            while id(cur) in par and par[id(cur)][0] is not None and found is None:
+                p, slot, idx = par[id(cur)]
+                if p.get("k") == "block" and slot == "stmts":
+                    for j in range(idx - 1, -1, -1):
+                        s = p["stmts"][j]
+                        if neutral(s):
+                            continue
+                        found = sets_flags(s)
+                        why = "follows `%s`" % expr_text(_unwrap_try(s))[:60]
+                        break
+                elif p.get("k") == "if" and slot == "then" and re.match(r"^flags_ok\(&?self\.flags,", expr_text(p["cond"]).replace(" ", "")):
+                    found = True
+                    why = "under `%s`" % expr_text(p["cond"])
+                cur = p
+            mn = "/".join(sorted(_asm_mnemonics(site) & NZ_BRANCHES))
+            seen[mn] = seen.get(mn, 0) + 1
+            key = "T-BRANCH-FLAGS-KNOWN:%s:%s#%d" % (fn["name"], mn, seen[mn])
+            n += 1
+            res.inst(key, True, {"function": fn["name"], "branch": mn, "flags_from": why, "where": facts.where(fn, site)})
+            if not found:
+                res.fail("T-BRANCH-FLAGS-KNOWN:%s:%s" % (fn["name"], mn), facts.where(fn, site),
+                         "%s emits %s where the flags are not known to be those of the value tested: %s" % (
+                             fn["name"], mn, ("the statement before it (`%s`) is not an instruction of this function that sets N/Z on every path" % why[9:-1]) if why else
+                             "no instruction that sets N/Z is emitted before it in this function and it is not under `if flags_ok(&self.flags, ..)`"))
+    if n == 0:
+        raise AnchorMissing("no branch on N/Z emitted by a generator function outside the comparison helpers")
+
+
+@rule("T-COND-OP-VERBATIM", floor=1,
+      text="which comparison a condition makes is decided by the source: generate_simple_condition hands the operator it matched in the expression "
+           "(`op` of the BinOp pattern) to generate_condition_ex as it is, with the value of `lhs` on the left and the value of `rhs` on the right.  "
+           "Every rewriting of a comparison (swapping the operands, <= into < of the next constant, signed forms) is made inside "
+           "generate_condition_ex, where T-CMPXFORM checks each one against the truth table of the operator for signed and unsigned operands; a "
+           "rewrite made before the hand-over is checked by nothing (`x < 1` lowered as `x == 0` is wrong for a signed char, and `1 > x` keeps "
+           "the other lowering)")
+def t_cond_op_verbatim(facts, res, tier):
+    from scopes import scoped
+    fn = next((f for f in genmodel.gen_fns(facts) if f["name"] == "generate_simple_condition"), None)
+    if fn is None:
+        raise AnchorMissing("generate_simple_condition not found")
+    lets = {}
+    for x in walk(fn["body"]):
+        if isinstance(x, dict) and x.get("k") == "let" and x.get("init") is not None and x.get("pat", {}).get("k") == "ident":
+            lets.setdefault(x["pat"]["name"], []).append(expr_text(x["init"]).replace(" ", ""))
+    n = 0
+    for node, env, doms in scoped(fn):
+        if not (_self_call(node, ("generate_condition_ex",)) and len(node.get("args", [])) >= 3):
+            continue
+        arms = [d for d in doms if d[0] == "arm" and re.search(r"\bBinOp\b", pat_text(d[2])) and re.search(r"\bop\b", pat_text(d[2]))]
+        if not arms:
+            continue
+        n += 1
+        a0, a1, a2 = [expr_text(a).replace(" ", "").lstrip("&*") for a in node["args"][:3]]
+        key = "T-COND-OP-VERBATIM:generate_simple_condition:%s,%s,%s" % (a0, a1, a2)
+        left_ok = a0 in lets and all(re.search(r"\blhs\b", t) and not re.search(r"\brhs\b", t) for t in lets[a0])
+        right_ok = a2 in lets and all(re.search(r"\brhs\b", t) and not re.search(r"\blhs\b", t) for t in lets[a2])
+        res.inst(key, True, {"left": a0, "operator": a1, "right": a2, "where": facts.where(fn, node)})
+        if a1 != "op" or not left_ok or not right_ok:
+            res.fail(key, facts.where(fn, node), "generate_simple_condition hands generate_condition_ex the comparison (%s, %s, %s) where the expression has (value of lhs, op, value of rhs): "
+                     "a comparison rewritten before the hand-over is not among those T-CMPXFORM verifies" % (a0, a1, a2))
+    if n == 0:
+        raise AnchorMissing("generate_simple_condition: no call of generate_condition_ex under the BinOp arm")
